@@ -1,4 +1,5 @@
 import GN.Props.C08
+import GN.EventLoop.Combined
 open GN.Props.C08
 #print axioms refused_while_terminated
 #print axioms terminated_until_start
@@ -8,3 +9,5 @@ open GN.Props.C08
 #print axioms fresh_after_restart
 #print axioms registry_is_exactly_unfinished_goroutines
 #print axioms cancelled_work_stays_silent
+#print axioms GN.EventLoop.Combined.drain_runs_no_callback
+#print axioms GN.EventLoop.Combined.terminated_flags_agree
